@@ -22,7 +22,7 @@ pub static DEF: PropDef = PropDef {
     real: &["filter parser, DefaultCompiler / every compiled closure, Filter::execute, FilterValue::execute", "regex-automata meta::Regex with its cache pool", "sliceslice / memchr searchers, LazyLock SIMD latch", "Scheme / AST Arc sharing", "real OS threads"],
     stub: &["thread scheduler (cooperative baton; pre-emption at node entries and callbacks only)", "SIMD anchor draw (supplied by the tape)", "user functions and list matcher (harness plug-ins)"],
     assumptions: &["code between two scheduling points is atomic in this engine; instruction-level interleavings and data races are covered only by the Miri tier (scalar path)", "harness callbacks are pure functions of their arguments"],
-    required_probes: &["c18.exec", "c18.recompile", "c18.value_exec", "c18.shared_ctx", "c18.regex_on_2_threads", "c18.t64", "c18.injected_panic_isolated", "c18.inside_overlap"],
+    required_probes: &["c18.exec", "c18.recompile", "c18.value_exec", "c18.shared_ctx", "c18.regex_on_2_threads", "c18.t64", "c18.injected_panic_isolated", "c18.inside_overlap", "c18.parse"],
     extra: Some(extra),
 };
 
@@ -76,6 +76,8 @@ enum Step {
     Recompile(usize, usize),
     CloneDrop(usize),
     Serialise(usize),
+    /// parse the filter text again inside the task (harness functions' parse-time callbacks are scheduling points)
+    Parse(usize),
 }
 
 fn compile(ast: FilterAst, sim: bool) -> Filter {
@@ -155,6 +157,20 @@ fn task_body(task: usize, sh: Arc<Shared>, steps: Vec<Step>) {
                 kernel::point("c18.clone");
                 drop(a);
                 drop(s);
+            }
+            Step::Parse(f) => {
+                let ast = sh.asts[f].clone();
+                let scheme = ast.scheme().clone();
+                match catch_unwind(AssertUnwindSafe(|| scheme.parse(&sh.texts[f]).map_err(|e| e.to_string()))) {
+                    Ok(Ok(again)) => {
+                        kernel::count("c18.parse");
+                        if again != ast {
+                            kernel::fail(v("concurrent-parse-differs", "", format!("task {task}: `{}` parsed to {again:?} concurrently, {ast:?} sequentially", sh.texts[f])));
+                        }
+                    }
+                    Ok(Err(e)) => kernel::fail(v("concurrent-parse-differs", "rejected", format!("task {task}: `{}` was accepted sequentially, rejected concurrently: {e}", sh.texts[f]))),
+                    Err(p) => kernel::fail(v("concurrent-parse-differs", "panic", format!("task {task}: `{}`: {}", sh.texts[f], kernel::panic_message(&*p)))),
+                }
             }
             Step::Serialise(f) => {
                 let a = serde_json::to_string(&sh.asts[f]).unwrap_or_default();
@@ -266,12 +282,13 @@ fn run(ctx: &RunCtx) -> Result<(), Violation> {
         for _ in 0..k {
             let f = choose(filters.len(), "step.f");
             let c = if chance(1, 2, "step.own_ctx") { ti % ctxs.len() } else { choose(ctxs.len(), "step.c") };
-            let s = match choose_w(&[10, if vfilters.is_empty() { 0 } else { 3 }, 3, 1, 1], "step.kind") {
+            let s = match choose_w(&[10, if vfilters.is_empty() { 0 } else { 3 }, 3, 1, 1, 2], "step.kind") {
                 0 => Step::Exec(f, c),
                 1 => Step::ExecValue(choose(vfilters.len(), "step.v"), c),
                 2 => Step::Recompile(f, c),
                 3 => Step::CloneDrop(f),
-                _ => Step::Serialise(f),
+                4 => Step::Serialise(f),
+                _ => Step::Parse(f),
             };
             if matches!(s, Step::Exec(..) | Step::Recompile(..)) && texts[f].contains("matches") && !regex_tasks[f].contains(&ti) {
                 regex_tasks[f].push(ti);
